@@ -22,6 +22,13 @@ TARGETED = [
     [('let', col('obj'), 'o2'), ('fields', 'only', ['o2', 'id'])],
     [('agg', [(None, ('count', None))], [(None, col('k'))]), ('agg', [('n', ('count', None))], [(None, col('_count'))])],
     [('agg', [(None, ('max', col('a'))), (None, ('min', col('b')))], [(None, col('flag')), (None, col('g'))]), ('limit', 3)],
+    # the TEXT of an object (or of an array holding objects), as the string functions see it
+    [('let', ('call', 'concat', [col('obj'), lit('|'), col('arr2')]), 'txt'), ('fields', 'only', ['id', 'txt'])],
+    [('let', ('call', 'toUpperCase', [col('obj')]), 'up'), ('let', ('call', 'substring', [col('arr2'), lit(2), lit(40)]), 'sub'), ('fields', 'only', ['id', 'up', 'sub'])],
+    [('agg', [(None, ('count', None))], [(None, ('call', 'toLowerCase', [col('obj')]))])],
+    [('where', ('call', 'contains', [col('obj'), lit('"p": 1, "q"')])), ('fields', 'only', ['id'])],
+    [('parse', '*"q": *,*', ['x', 'y', 'z'], col('obj'), False, False), ('fields', 'only', ['id', 'x', 'y', 'z'])],
+    [('let', ('call', 'concat', [col('obj', ('k', 'r'))]), 'txt'), ('agg', [(None, ('count', None))], [(None, col('txt'))])],
 ]
 
 
@@ -36,6 +43,7 @@ def explore(ctx):
             rows = gen.gen_rows(rng, rng.randint(5, 30))
             for r in rows:
                 r['obj'] = {'p': rng.randint(0, 2), 'q': rng.choice(['x', 'y']), 'r': [1, {'z': rng.randint(0, 1), 'y': 2}]}
+                r['arr2'] = [{'b': rng.randint(0, 1), 'a': 'v', 'c': None, 'd': [1]}, 7]
                 r['s'] = 'x=%d y=%d z=%d w=1' % (rng.randint(0, 2), rng.randint(0, 2), rng.randint(0, 1))
             cases.append(Case('t%d-%d' % (i, rep), STAR, [('json', None)] + tail, [gen.jtext(r) for r in rows], {'targeted'}))
     for i in range(nq):
@@ -110,7 +118,7 @@ def explore(ctx):
             failures.append({'kind': 'corr', 'what': r['corr'], 'payload': payload(r)})
     cov = {
         'evaluations': len(jobs) + chunk_checked + len(jcases), 'distinct_nontrivial': len(nontrivial),
-        'rule': '%d queries (targeted: objects as keys / sort keys / distinct values, aggregation followed by where/fields/field expressions/logfmt/second aggregation; random pipelines) '
+        'rule': '%d queries (targeted: objects as keys / sort keys / distinct values, the text of objects and of arrays of objects through concat/toUpperCase/toLowerCase/substring/contains/parse from, aggregation followed by where/fields/field expressions/logfmt/second aggregation; random pipelines) '
                 'each run %d times in fresh processes (fresh hash seeds), output modes json/legacy/logfmt, byte comparison of stdout; plus chunked stdin pinned to one CPU; '
                 'non-trivial = an aggregation with >= 3 result rows' % (len(cases), runs),
         'samples': samples_of(cases[:2] + cases[len(TARGETED) * 2:len(TARGETED) * 2 + 2]),
